@@ -113,6 +113,7 @@ def run_case(ctx, ids, subset, crashes):
     if info_level:
         job = dict(job, config=job["config_info"])
     foreign = _COUNTER[0] % 3 == 0                   # the output folders already hold the complete outputs of an earlier batch
+    in_cfg = _COUNTER[0] % 5 == 2                    # all paths in the configuration file instead of on the command line
     desc = lambda: "ids=%r outputs=%r crash positions=%r skipp-missing-xml=%r logging INFO=%r outputs of other pages present=%r (uninterrupted run makes %d writes: %r)" % (
         ids, subset, crashes, smx, info_level, foreign, W, ref_writes)
     try:
@@ -128,12 +129,14 @@ def run_case(ctx, ids, subset, crashes):
             ctx.event("outputs_of_an_earlier_batch_present")
         if info_level:
             ctx.event("logging_level_info")
+        if in_cfg:
+            ctx.event("paths_in_the_configuration_file")
         inside = False
         first = True
         history = []
         for c in crashes:
             before = incomplete_pages(ids, subset, outs) if not first else list(ids)
-            status, inj = F.run_main(F.argv_for(job, outs, skip=not first, skip_missing_xml=smx), F.Injector(crash_at=c))
+            status, inj = F.run_main(F.argv_for(job, outs, skip=not first, skip_missing_xml=smx, paths_in_config=in_cfg), F.Injector(crash_at=c))
             history.append((c, status, list(inj.writes)))
             ctx.check(status in ("ok", "crash"), "run_fails", lambda: "status %s; history %r; " % (status, history) + desc())
             if not first:
@@ -150,7 +153,7 @@ def run_case(ctx, ids, subset, crashes):
             first = False
         # final resume(s): the batch must complete
         before = incomplete_pages(ids, subset, outs) if not first else list(ids)
-        status, inj = F.run_main(F.argv_for(job, outs, skip=not first, skip_missing_xml=smx))
+        status, inj = F.run_main(F.argv_for(job, outs, skip=not first, skip_missing_xml=smx, paths_in_config=in_cfg))
         history.append((None, status, list(inj.writes)))
         ctx.check(status == "ok", "resume_does_not_exit_cleanly", lambda: "status %s; history %r; stdout tail %r; " % (status, history, inj.stdout[-300:]) + desc())
         if not first:
@@ -158,7 +161,7 @@ def run_case(ctx, ids, subset, crashes):
         diff = F.diff_snapshots(ref_snap, own_snapshot(outs))
         ctx.check(not diff, "outputs_differ_after_resume", lambda: "%r; history %r; " % (diff, history) + desc())
         # one more resume: nothing left to do, exits cleanly, processes nothing
-        status, inj = F.run_main(F.argv_for(job, outs, skip=True, skip_missing_xml=smx))
+        status, inj = F.run_main(F.argv_for(job, outs, skip=True, skip_missing_xml=smx, paths_in_config=in_cfg))
         ctx.check(status == "ok", "resume_with_nothing_to_do_fails", lambda: "status %s; " % status + desc())
         ctx.check(not inj.processed, "complete_page_processed_again", lambda: "a resume over a complete folder processed %r; " % (inj.processed,) + desc())
         ctx.check(not F.diff_snapshots(ref_snap, own_snapshot(outs)), "outputs_changed_by_idle_resume", desc)
